@@ -77,6 +77,9 @@ def rand_table(rng, exprs, n_units, p_fail=0.15, dyadic=True, allow_other=False)
             table[rows] = rng.choice(["ValueError", "RuntimeWarning", "UserWarning"])
         elif allow_other and r < p_fail + 0.03:
             table[rows] = "Other"
+        elif r > 0.9:
+            # a coalition worth exactly 0 (a model that gets every validation point wrong): 0.0 is a score, not "no score"
+            table[rows] = Fraction(0)
         else:
             table[rows] = Fraction(rng.randrange(-64, 65), 8 if dyadic else 7)
     return table
